@@ -6,7 +6,14 @@ J=${VERIF_JOBS:-16}
 python3 tools_gen.py
 cd coq
 [ -f Makefile ] && [ Makefile -nt _CoqProject ] || coq_makefile -f _CoqProject -o Makefile
-timeout 3000 make -j"$J" 2>&1 | grep -v '^COQC\|^COQDEP\|^CLEAN\|Closed under the global context\|Nothing to be done\|^make\[' || true
+mkdir -p ../.work
+if ! timeout 3000 make -j"$J" > ../.work/make.$$.log 2>&1; then
+  grep -v '^COQC\|^COQDEP\|^CLEAN\|Closed under the global context' ../.work/make.$$.log | tail -40
+  rm -f ../.work/make.$$.log
+  echo setup-FAILED
+  exit 1
+fi
+rm -f ../.work/make.$$.log
 test -f Extract/Extract.vo && test Extract/Extract.vo -nt Extract/Extract.v
 # every source must have an up-to-date .vo (make -k is not used; a failed file stops the build)
 for f in $(grep '\.v$' _CoqProject); do test -f "${f}o" || { echo "missing ${f}o"; exit 1; }; done
